@@ -54,14 +54,14 @@ func c11GenMode(mode string) func(seed uint64, tier string) any {
 		sc := &C11Scenario{Mode: mode, GlobalSeed: r.U64()}
 		nt := r.Range(2, 4)
 		// one default-sides text per scenario: VMs with different flags often configure the same text
-		sharedSide := Pick(r, []string{"20", "6", "f + 10", "b1", "2 | 5", "3a9 + 4", "面数 ?? 6", "3|4", "p1 + 2"})
+		sharedSide := Pick(r, []string{"20", "6", "f + 10", "b1", "2 | 5", "3a9 + 4", "面数 ?? 6", "3|4", "p1 + 2", "(20 + 1", "[6,", "力量 +\n (", "10 +"})
 		for t := 0; t < nt; t++ {
 			cfg := GenCfg(r)
 			cfg.Lang = r.Intn(3)
 			cfg.OpLimit = 20000
 			cfg.NoStmts = false
 			cfg = cfg.Tame()
-			if mode == "c11" && r.Chance(1, 3) {
+			if mode == "c11" && r.Chance(1, 3) || mode == "c19" && r.Chance(1, 4) {
 				cfg.DefaultSide = sharedSide
 				if r.Chance(1, 4) {
 					cfg.DefaultSide = Pick(r, []string{"20", "6", "f + 10", "b1", "2 | 5", "3a9 + 4", "面数 ?? 6"})
@@ -341,7 +341,7 @@ func c11Exec(raw json.RawMessage, res *RunResult) {
 			key = append(key, t.Cmds[j].Src)
 			dg.Add("task", fmt.Sprint(i), fmt.Sprint(j), b.Key())
 			if b.Err != "" {
-				wording := t.Cmds[j].Src
+				wording := t.Cmds[j].Src + t.Cfg.DefaultSide
 				if usesBrokenBody(wording) {
 					wording = brokenSnapshot // the quoted line comes from a restored body
 				}
@@ -357,7 +357,8 @@ func c11Exec(raw json.RawMessage, res *RunResult) {
 								res.Violate("geometry", "error position inconsistent with the restored body's text: %s\n  src=%q body=%q\n  text=%q", why, t.Cmds[j].Src, body, b.Err)
 							}
 						}
-					} else if ok, why := errorGeometryOK(b.Err, t.Cmds[j].Src); !ok {
+					} else if ok, why := errorGeometryOK(b.Err, t.Cmds[j].Src); !ok && !(t.Cfg.DefaultSide != "" && func() bool { ok2, _ := errorGeometryOK(b.Err, t.Cfg.DefaultSide); return ok2 }()) {
+						// (an error inside the default-sides text is positioned within that text)
 						res.Violate("geometry", "error position inconsistent with input: %s\n  src=%q\n  text=%q", why, t.Cmds[j].Src, b.Err)
 					}
 					if ok, why := errorLanguageOKFor(a.Err, lang, wording); !ok {
